@@ -17,6 +17,7 @@ REGISTRY = {
     'C14': 'harness.c14',
     'C15': 'harness.c12',
     'C16': 'harness.c16',
+    'C17': 'harness.c17',
     'C18': 'harness.session',
     'C19': 'harness.c19',
     'C20': 'harness.c20',
